@@ -158,6 +158,11 @@ def f2_f3_side_and_castling(ck):
                     wcastle.append((txt, variant_name(c[1][2][1]), c[2], bb))
         if txt == "-" and any(is_call(c, "Iterator::all") or is_call(c, "Iterator>::all") for c, tk in g if tk is True):
             wdash = bb
+        if txt == "-":
+            # explicit form: `rights(White).none() && rights(Black).none()`
+            cols = {variant_name(c[2][0][2][1]) for c, tk in g if tk is True and is_call(c, "CastleRights::none") and is_call(c[2][0], STATE + "castle_rights")}
+            if cols == set(cn.values()):
+                wdash = bb
     ck.req(rside == {"w": "White", "b": "Black"}, "F2.reader", "side letters", rd.where(), "reader maps side letters %s" % rside)
     ck.req(wside == {"w": "White", "b": "Black"}, "F2.writer", "side letters", wr.where(), "writer prints side letters %s" % wside)
     # castling reader
@@ -536,8 +541,9 @@ def f6_orientation(ck):
             kinds.add("init")
         elif t[0] == "bin" and t[1] == "Add" and 1 in (const_value(t[2]), const_value(t[3])):
             kinds.add("piece")
-        elif any(is_call(x, "checked_add") for x in walk(t)) and any(is_call(x, "to_digit") for x in walk(t)):
-            kinds.add("digit")
+        elif any(is_call(x, "checked_add") for x in walk(t)) and (any(is_call(x, "to_digit") for x in walk(t)) or
+                                                                   any(x[0] == "bin" and x[1] in ("Sub", "SubUnchecked") and const_value(x[3]) == 48 for x in walk(t))):
+            kinds.add("digit")       # run length = digit value of the character: to_digit(10) or `c as u8 - b'0'`
         else:
             kinds.add("other:" + show(t)[:60])
     ck.req(kinds == {"init", "piece", "digit"}, "F6.cursor", "Board::try_parse", bp.where(), "cursor updates are %s" % sorted(kinds))
@@ -570,6 +576,8 @@ def f7_f8_counters_and_rejections(ck):
             for s in blk["stmts"]:
                 if s["k"] == "assign" and s["place"] == {"l": 0, "p": []} and "agg" in s["rv"] and s["rv"]["agg"].get("variant") == "Err":
                     n += 1
-        ck.req(n == want, "F8.rejections", name.split("::")[-2] + "::" + name.split("::")[-1], b.where(),
-               "the reader has %d rejection points, %d were reviewed: an added validation can refuse text the writer itself produces (review it and update the rule), "
-               "a removed one can accept garbage" % (n, want), "%d rejection points" % n)
+        # only an ADDED rejection can break the round trip (refuse text the writer produces); a removed one accepts more text, which is not
+        # this property's business (C14 decides that no accepted text panics)
+        ck.req(n <= want, "F8.rejections", name.split("::")[-2] + "::" + name.split("::")[-1], b.where(),
+               "the reader has %d rejection points, %d were reviewed: an added validation can refuse text the writer itself produces (review it and update the rule)"
+               % (n, want), "%d rejection points (%d reviewed)" % (n, want))
